@@ -15,23 +15,21 @@ class C08(Spec):
                   "specification; tied to the code by a line-by-line differential run over generated histories on a "
                   "pre-populated GoLevelDB base; Get/List/PrefixCount are checked against the specification on the implementation.")
     level_note = ("Begin inside an open transaction discards the open writes (the code's behaviour, taken as specified); "
-                  "blockchain/localdb.go (queue handlers that forward to LocalDB) is driven on a testnode in the thorough tier "
-                  "(h_c08q; linking the node costs ~35 s, too slow for the quick tier; VERIF_C08_QUEUE=1 forces it).")
+                  "blockchain/localdb.go (queue handlers that forward to LocalDB, and the handle-less Get/List/PrefixCount "
+                  "requests that read the committed database) is driven on a testnode by a second harness (h_c08q) in both tiers.")
     assumptions = (
         "GoMemDB / GoLevelDB behave as the C06 ordered-map model (C06's differential run)",
         "one goroutine uses a LocalDB at a time (the read-through cache fill under RLock is not modelled as a race)",
     )
 
     def runs(self, tier, seed):
-        rs = [dict(env={})]
-        if tier == "thorough" or os.environ.get("VERIF_C08_QUEUE"):
-            # the same op language through blockchain/localdb.go's queue handlers on a real testnode
-            from .. import core
-            binary, log = core.go_build("h_c08q")
-            if binary is None:
-                raise RuntimeError("h_c08q build failed against the repo working tree: " + log[-800:])
-            rs.append(dict(env={}, binary=binary))
-        return rs
+        # second run: the same op language through blockchain/localdb.go's queue handlers on a real
+        # testnode (incl. the handle-less Get/List/PrefixCount requests); small dose in the quick tier
+        from .. import core
+        binary, log = core.go_build("h_c08q")
+        if binary is None:
+            raise RuntimeError("h_c08q build failed against the repo working tree: " + log[-800:])
+        return [dict(env={}), dict(env={}, binary=binary)]
 
 
 SPEC = C08()
